@@ -75,8 +75,8 @@ Print Assumptions C07_validate_idempotent_refuted.
 (* ------------------------------------------------------------------------------------------- *)
 (* the implicit nodes are exact                                                                  *)
 (* ------------------------------------------------------------------------------------------- *)
-(* For freshly parsed input - every node new and explicit, no empty non-presence container, no two siblings in different
-   cases of a choice (Implicit.freshb; what LYD_PARSE_ONLY yields for a document without default attributes), canonical -
+(* For freshly parsed input - every node new and explicit, no empty non-presence container (Implicit.freshb; what
+   LYD_PARSE_ONLY yields for a document without default attributes), canonical -
    a successful validation reaches THE normal form: the default-flagged nodes of the result are exactly the defaults RFC 7950
    requires for its explicit nodes (normalb), and the explicit content is that of the input (nothing explicit is deleted,
    nothing explicit is made up). Partial: histories (validation after edits of a validated tree) are not covered by a proof -
